@@ -770,13 +770,17 @@ def template_case(t: Any, src: str) -> dict[str, Any] | None:
 
 NAMES = ["a", "b", "c", "x", "y", "items", "n", "s", "user", "title"]
 ODD_NAMES = ["empty", "blank", "limit", "offset", "cols", "reversed", "continue", "true", "nil", "if",
-             "for", "and", "not", "é1", "_u", "a-b", "a b", "it's", "", "1st", 'q"q', "x\ny", "$", "a.b"]
+             "for", "and", "not", "as", "with", "else", "required", "in", "or", "contains", "false", "null", "é1", "_u", "a-b", "a b", "it's", "", "1st", 'q"q', "x\ny", "$", "a.b"]
 STRINGS = ["", "a", "a b", "it's", 'say "hi"', "it's \"both\"", "back\\slash", "line\nbreak", "tab\tx",
            "${x}", "$5", "a${", "cr\rx", "\x08\x0c", "\x1b[0m", "\x7f", "é", " ", " ", "😀",
            "", "\U000e0001", "%}", "}}", "{{", "{% x %}", "{# c #}", "\\'", "'\\", "\\\\n", "nil",
            "continue", ",", "|", "a'b\"c\\d$e{f}"]
 FLOATS = ["1.5", "-0.25", "3.0", "1.0e+16", "2.5e-7", "10000000000000000.0", "0.1", "1e-3", "123.456e5",
-          "-2.0e22", "0.00001"]
+          "-2.0e22", "0.00001",
+          # the overflow boundary: the largest double, the first spelling that rounds to inf, far beyond, underflow
+          "1.7976931348623157e308", "1.7976931348623158e308", "1.7976931348623159e308", "-1.7976931348623159e308",
+          "1.0e400", "-1.0e400", "1.0e999", "179769313486231580793728971405303415079934132710037826936173778980444968292764750946649017977587207096330286416692887910946555547851940402630657488671505820681908902000708383676273854845817711531764475730270069855571366959622842914819860834936475292719074168444365510704342711559699508093042880177904174497792.0",
+          "1e-400", "-0.0", "4.9e-324"]
 INTS = ["0", "1", "-1", "42", "-7", "1e3", "2E2", "9007199254740992", "-9223372036854775808",
         "100000000000000000000000", "007", "-0"]
 OPS = ["==", "!=", "<>", "<", ">", "<=", ">=", "contains", "in", "and", "or"]
@@ -1035,19 +1039,20 @@ def gen_fexpr_src(r: Any, *, valid: bool = False, depth: int = 2) -> str:
 def gen_loop_src(r: Any, *, cols: bool = False) -> str:
     ident = r.choice(["i", "item", "x", "limit", "é"])
     k = r.random()
+    kwvar = lambda: "['" + r.choice(["limit", "offset", "cols", "reversed", "continue", "in", "for"]) + "']"  # noqa: E731
     if k < 0.15:
-        items = [gen_prim_src(r, 1) for _ in range(r.choice([1, 2, 3]))]
+        items = [kwvar() if r.random() < 0.3 else gen_prim_src(r, 1) for _ in range(r.choice([1, 2, 3]))]
         return f"{ident} in " + ", ".join(items) + ("," if len(items) == 1 else "")
-    it = gen_prim_src(r, 1) if k < 0.75 else r.choice(["(1..3)", "(a..b)", "(1..n)", "items", "x.y"])
+    it = gen_prim_src(r, 1) if k < 0.7 else r.choice(["(1..3)", "(a..b)", "(1..n)", "items", "x.y", kwvar(), kwvar()])
     opts = []
     sep = lambda: r.choice([":", ": ", "=", " : "])  # noqa: E731
     if r.random() < 0.45:
-        opts.append("limit" + sep() + gen_prim_src(r, 0, rng_ok=False))
+        opts.append("limit" + sep() + (kwvar() if r.random() < 0.2 else gen_prim_src(r, 0, rng_ok=False)))
     if r.random() < 0.4:
-        opts.append("offset" + sep() + (r.choice(["continue", "'continue'"]) if r.random() < 0.3
-                                        else gen_prim_src(r, 0, rng_ok=False)))
+        opts.append("offset" + sep() + (r.choice(["continue", "'continue'", "['continue']", "['continue']", kwvar()])
+                                        if r.random() < 0.4 else gen_prim_src(r, 0, rng_ok=False)))
     if cols and r.random() < 0.6:
-        opts.append("cols" + sep() + gen_prim_src(r, 0, rng_ok=False))
+        opts.append("cols" + sep() + (kwvar() if r.random() < 0.2 else gen_prim_src(r, 0, rng_ok=False)))
     if r.random() < 0.3:
         opts.append("reversed")
     r.shuffle(opts)
@@ -1698,6 +1703,11 @@ EXPR_CORPUS = [
     ("loop", "i in x limit:2 offset:1 reversed"), ("loop", "i in x reversed, limit: 2 cols=3"),
     ("loop", "i in x offset:continue"), ("loop", "i in x offset: ['continue']"), ("loop", "i in 1, 2, 3"),
     ("loop", "i in x,"), ("loop", "i in a, ['limit']"), ("loop", "i in a, limit"), ("loop", "i in a, limit: 1"),
+    ("loop", "i in ['limit'], ['limit'], ['offset']"), ("loop", "i in a, ['reversed'], ['cols'], b"),
+    ("loop", "i in ['reversed'] reversed limit: ['limit'] offset: ['offset'] cols: ['cols']"),
+    ("loop", "i in x offset: ['continue'] limit: ['continue']"), ("loop", "i in ['continue'], ['continue']"),
+    ("fexpr", "1.0e400 | plus: -1.0e400"), ("fexpr", "1.7976931348623157e308, 1.7976931348623159e308"),
+    ("bool", "1.0e999 == -1.0e999 or 1e-400 < 4.9e-324"),
     ("loop", "i in x limit"), ("loop", "i x"), ("loop", "i in"), ("loop", "i in x foo"),
 ]
 
@@ -1720,7 +1730,12 @@ TEMPLATE_CORPUS = [
     "{% include 'a' for b as c %}{% render 'a' with b as 'y z' %}", "{{ b, | first }}",
     "{% macro 'my f' p %}{{ p }}{% endmacro %}{% call 'my f' 1 %}", "{% block 'a b' %}x{% endblock %}",
     "{% liquid echo a\n# note  %}", "{% liquid\n  echo ['a b']\n echo y[\"a\\nb\"]\n echo [true] %}",
-    "{% for i in b %}{{ i }}{% endfor %}", "{%- if a ~%} x {%+ else -%} y {%~ endif +%}",
+    "{% for i in b %}{{ i }}{% endfor %}", "{{ 1.0e400 }}|{{ -1.0e400 }}|{{ n | plus: 2.0e308 }}|{{ 1.7976931348623157e308 }}",
+    "{% for i in b, ['limit'] %}{{ i }}{% endfor %}|{% for i in b offset: ['continue'] %}{{ i }}{% endfor %}"
+    "|{% for i in b offset: continue %}{{ i }}{% endfor %}|{% for i in ['limit'], ['reversed'] %}{{ i }}{% endfor %}",
+    "{% tablerow i in b, ['cols'] %}{{ i }}{% endtablerow %}{% tablerow i in b cols: ['cols'] offset: ['continue'] %}{{ i }}{% endtablerow %}",
+    "{% include 'a' with ['with'] as x %}{% render 'a' for ['for'] as x %}{{ ['if'] if ['else'] else ['if'] }}"
+    "{% case ['or'] %}{% when ['or'], ['and'] %}x{% endcase %}{% cycle ['required'], ['as'] %}", "{%- if a ~%} x {%+ else -%} y {%~ endif +%}",
     "{{- a -}} {{~ a ~}} {{+ a +}}", "{# c #}{## c # ##}{#- c -#}{% # c %}{% comment %} c {% endcomment %}",
     "{%- raw -%} {{ a }} {%- endraw -%}", "{% case n %} {% when 1, 2 or 3 %}x{% else %}y{% endcase %}",
     "{% extends 'base' %}{% block body %}B{{ block.super }}{% endblock %}",
@@ -1731,12 +1746,6 @@ TEMPLATE_CORPUS = [
 
 # Known findings: the recorded witnesses are re-observed on every run.
 KNOWN_WITNESSES = [
-    ("float-inf-literal", "{{ 1.0e999 }}",
-     "the float literal 1.0e999 is inf, serialised as `inf`, which parses as a variable"),
-    ("loop-bare-word-reinterpreted", "{% for i in b, ['limit'] %}{{ i }}{% endfor %}",
-     "`['limit']` as the second item of an array-literal loop iterable is serialised as the bare word "
-     "`limit`, which LoopExpression.parse takes for the limit option (and `offset: ['continue']` for the "
-     "string 'continue')"),
     ("unicode-space-in-bare-name", "{{ ['\u2028'] }}",
      "a variable whose name starts with Unicode whitespace is written bare, and the `\\s*` after `{{` swallows it"),
     ("loop-bare-word-reinterpreted", "{% for i in b offset: ['continue'] %}{{ i }}{% endfor %}",
@@ -1745,25 +1754,9 @@ KNOWN_WITNESSES = [
 
 
 def known_mechanism(items: Any) -> str | None:
-    """The signature of a known finding whose mechanism occurs in `items`."""
-    def walk(x: Any) -> str | None:
-        if isinstance(x, tuple) and x and x[0] == "finf":
-            return "float-inf-literal"
-        if isinstance(x, tuple) and len(x) == 6 and isinstance(x[5], bool) and isinstance(x[1], tuple) \
-                and x[1] and x[1][0] in ("prim", "array"):
-            it, off = x[1], x[3]
-            if it[0] == "array" and len(it[1]) > 1 and it[1][1][0] == "path" and len(it[1][1][1]) == 1 \
-                    and it[1][1][1][0][0] == "n" and it[1][1][1][0][1] in ("limit", "offset", "cols", "reversed"):
-                return "loop-bare-word-reinterpreted"
-            if off == ("path", [("n", "continue")]):
-                return "loop-bare-word-reinterpreted"
-        if isinstance(x, (tuple, list)):
-            for y in x:
-                s = walk(y)
-                if s:
-                    return s
-        return None
-    return walk(items)
+    """The signature of a known finding whose mechanism occurs in `items`
+    (none at present: float inf and the loop keywords are fixed)."""
+    return None
 
 
 def deep_not_in_left(x: Any) -> bool:
@@ -2008,8 +2001,7 @@ def main(chk: C.Check, build: C.Build) -> None:  # noqa: PLR0912, PLR0915
         "a float value is represented by its repr; float(repr(x)) == x is CPython's",
         "the lexer's tokenisation of printed text is tied by comparison on the generated cases, not proved",
         "wf_* guards: strings without code points below 8 or lone surrogates, integers that survive "
-        "to_int(float()), finite floats (known finding float-inf-literal), ranges bounded as accept_range "
-        "admits, keyword lambdas with one parameter, and not the two loop shapes of known finding "
-        "loop-bare-word-reinterpreted",
+        "to_int(float()), floats other than nan (no literal denotes it), ranges bounded as accept_range "
+        "admits, lambdas with at least one parameter (exactly one after a keyword)",
         "template strings and the token printer of {% liquid %} are outside the Coq model (oracle only)",
     ]
